@@ -186,6 +186,40 @@ def _work_words(task) -> core.Part:
     return p
 
 
+P_TOKENS = ("1-0:1.7.0", "(1)", "(0001.320*kW)", "(", ")", "*", "x", "\r\n")
+
+
+def _work_ptokens(task) -> core.Part:
+    """Every sequence of up to N P1 syntax tokens (address, complete values, single parentheses, '*', garbage, line end):
+    parse_p1_readout_content directly under the call budget, and the sequences of up to N-1 tokens through AutoDecoder in
+    every state."""
+    first, N = task
+    from han import dlde
+
+    p = core.Part()
+    seqs = []
+    for L in range(1, N + 1):
+        for tail in itertools.product(P_TOKENS, repeat=L - 1):
+            seqs.append((first,) + tail)
+    auto_inputs = []
+    for w in seqs:
+        inp = "".join(w).encode()
+        par.beat(json.dumps({"state": None, "input": inp.hex(), "entry": "payload"}))
+        k, v, c = budget.run_budget(lambda: dlde.parse_p1_readout_content(inp), budget.budget_for(len(inp)))
+        p.add("executions")
+        p.add("nontrivial")
+        if k == "budget" or (k == "exc" and not isinstance(v, ValueError)):
+            m = "did not terminate within the call budget" if k == "budget" else f"raised {type(v).__name__}"
+            kind = "nontermination" if k == "budget" else "raises"
+            p.viol(kind, f"{kind}:parse:{inp.hex()}", f"parse_p1_readout_content({inp!r}) {m}", {"state": None, "input": inp.hex(), "entry": "payload"}, size=len(inp))
+            if p.full(kind):
+                return p
+        if len(w) < N:
+            auto_inputs.append(inp)
+    _drive(p, auto_inputs, "P1 token sequence")
+    return p
+
+
 NUMBER_TEXTS = ["0", "1", "-1", "+1", "00000001.000", "1.", ".5", "1.5e3", "1E9", "1e99", "1E308", "1E309", "1E999", "1E4300", "1E9999", "1E99999", "1E999999", "1E9999999",
                 "1E99999999", "1E999999999", "1E-9", "1E-999999999", "9" * 400, "9" * 4301, "9" * 20000, "0." + "0" * 400 + "1", "1" + "0" * 4400 + ".5", "1_000", "1,5", "1.2.3", "--1", "1e", "e1", "inf", "-inf",
                 "nan", "NaN", "sNaN", "Infinity", "0x1F", "0b1", "0o7", " 1", "1 ", "1e+", "1/3", "True", "None", ""]
@@ -237,6 +271,9 @@ def main(run: core.Run) -> int:
     at = [(c, NA, True) for c in ASCII] + [(c, ND, False) for c in ASCII]
     run.merge(par.pmap(_work_ascii, at, seed=run.seed))
     run.merge(par.pmap(_work_words, [(i, 16) for i in range(16)], seed=run.seed))
+    NP = 5 if q else 6
+    run.log(f"P1 token sequences <= {NP} over {len(P_TOKENS)} tokens")
+    run.merge(par.pmap(_work_ptokens, [(t, NP) for t in P_TOKENS], seed=run.seed))
     run.log(f"number texts: {len(NUMBER_TEXTS)} x {len(NUMBER_ADDR)} addresses x {len(NUMBER_UNITS)} unit spellings")
     run.merge(par.pmap(_work_numbers, [(i, 16) for i in range(16)], seed=run.seed))
     from mc.props import C10
@@ -245,6 +282,7 @@ def main(run: core.Run) -> int:
     tot.sample({"message": "ref.kaifa.list1_1320W.body", "input": "02010600000528", "states": 8, "entries": 2, "budget_calls": budget.budget_for(7)})
     tot.sample({"ascii": "1.0(1)x", "expected": "dict or None within 42 800 calls"})
     run.bounds = {"messages": len(pick), "histories": "each remembered decoder reached by k genuine messages, k in " + str(list(PRIME_QUICK if q else PRIME_THOROUGH)), "extreme_clocks": "well-formed messages with clocks at year 1 / 9999 x 6 times x 8 deviations x 3 hundredths in all 6 date-time positions", "ascii_via_autodecoder": f"<= {NA}", "ascii_via_parse_p1_readout_content": f"<= {ND}", "max_calls_observed": tot.mx.get("max_calls", 0),
+                  "p1_token_sequences": f"<= {NP} tokens over {list(P_TOKENS)} (parse directly; <= {NP - 1} tokens through AutoDecoder in every state)",
                   "number_texts": f"{len(NUMBER_TEXTS)} texts (exponents up to 1E999999999, 400..20000-digit strings, signs, separators, inf/nan) x {len(NUMBER_ADDR)} P1 addresses x {len(NUMBER_UNITS)} unit spellings",
                   "real_time_limit_per_evaluation_s": par.CASE_LIMIT}
     run.assumptions = ["time/memory bound is decided through the deterministic call-count budget (every allocation in these code paths happens inside a counted call) with an address-space limit as backstop",
